@@ -180,6 +180,8 @@ func matrixShape(name string) *pipeline.Matrix {
 		return nil
 	case "empty":
 		return &pipeline.Matrix{}
+	case "empty_alloc":
+		return &pipeline.Matrix{Setup: pipeline.MatrixSetup{}, Adjustments: pipeline.MatrixAdjustments{}, RemainingFields: map[string]any{}} // (what `{"setup": {}}` parses to, and more)
 	case "list_ab":
 		return &pipeline.Matrix{Setup: pipeline.MatrixSetup{"": {"a", "b"}}}
 	case "list_ac":
